@@ -23,7 +23,7 @@ fn segmerge_case(case: u64, rng: &mut Rng, rep: &mut Report) {
     let mut writer: IndexWriter<TantivyDocument> = match index.writer_with_num_threads(1, 15_000_000) {
         Ok(w) => w,
         Err(e) => {
-            rep.violation("segmerge:api-error:writer", json!(e.to_string()));
+            viol(rep, "segmerge:api-error:writer", json!(e.to_string()));
             return;
         }
     };
@@ -79,33 +79,33 @@ fn segmerge_case(case: u64, rng: &mut Rng, rep: &mut Report) {
                 d.add_text(f_s, &svocab[s]);
             }
             if let Err(e) = writer.add_document(d) {
-                rep.violation("segmerge:api-error:add_document", json!(e.to_string()));
+                viol(rep, "segmerge:api-error:add_document", json!(e.to_string()));
                 return;
             }
             docs.push(SegDoc { id: next_id, tokens, svals });
             next_id += 1;
         }
         if let Err(e) = writer.commit() {
-            rep.violation("segmerge:api-error:commit", json!(e.to_string()));
+            viol(rep, "segmerge:api-error:commit", json!(e.to_string()));
             return;
         }
     }
     let ids = match index.searchable_segment_ids() {
         Ok(i) => i,
         Err(e) => {
-            rep.violation("segmerge:api-error:segment_ids", json!(e.to_string()));
+            viol(rep, "segmerge:api-error:segment_ids", json!(e.to_string()));
             return;
         }
     };
     let nsegments_before = ids.len();
     if let Err(e) = writer.merge(&ids).wait() {
-        rep.violation("segmerge:api-error:merge", json!(e.to_string()));
+        viol(rep, "segmerge:api-error:merge", json!(e.to_string()));
         return;
     }
     let reader = match index.reader() {
         Ok(r) => r,
         Err(e) => {
-            rep.violation("segmerge:api-error:reader", json!(e.to_string()));
+            viol(rep, "segmerge:api-error:reader", json!(e.to_string()));
             return;
         }
     };
@@ -117,7 +117,7 @@ fn segmerge_case(case: u64, rng: &mut Rng, rep: &mut Report) {
     let info = json!({"target": "IndexWriter::merge", "segments_before": nsegments_before, "docs": docs.len(),
         "vocab": vocab.len(), "string_vocab": svocab.len(), "multi_valued_string": multi_s});
     if searcher.segment_readers().len() != 1 {
-        rep.violation("segmerge:not-one-segment-after-merge", json!({"segments": searcher.segment_readers().len(), "info": info}));
+        viol(rep, "segmerge:not-one-segment-after-merge", json!({"segments": searcher.segment_readers().len(), "info": info}));
         return;
     }
     let sr = &searcher.segment_readers()[0];
@@ -181,7 +181,7 @@ fn segmerge_case(case: u64, rng: &mut Rng, rep: &mut Report) {
     let idcol = match sr.fast_fields().u64("id") {
         Ok(c) => c,
         Err(e) => {
-            rep.violation("segmerge:api-error:fast-id", json!(e.to_string()));
+            viol(rep, "segmerge:api-error:fast-id", json!(e.to_string()));
             return;
         }
     };
@@ -245,6 +245,6 @@ fn segmerge_case(case: u64, rng: &mut Rng, rep: &mut Report) {
         rep.sample(json!({"stream": "segmerge", "info": info, "text_terms": exp_t.len(), "string_terms": exp_s.len()}));
     }
     for (sig, d) in fails.v {
-        rep.violation(sig, json!({"detail": d, "info": info}));
+        viol(rep, sig, json!({"detail": d, "info": info}));
     }
 }
